@@ -76,7 +76,7 @@ type Contracts struct {
 
 var clauseKw = map[string]bool{"requires": true, "ensures": true, "modifies": true, "loop": true, "ghost": true, "order": true,
 	"unreachable": true, "props": true, "inline": true, "trusted": true, "ensures_on_panic": true, "publishes": true, "assert": true,
-	"invariant": true, "guarded_by": true, "holds": true, "reads": true, "atomic": true, "immutable": true, "apply": true, "induct": true, "inlines": true, "pool": true, "contains_panics": true, "rely": true, "dead_loop": true, "callee_frame": true, "decreases": true}
+	"invariant": true, "guarded_by": true, "frozen": true, "concurrent": true, "holds": true, "reads": true, "atomic": true, "immutable": true, "apply": true, "induct": true, "inlines": true, "pool": true, "contains_panics": true, "rely": true, "dead_loop": true, "callee_frame": true, "decreases": true}
 
 var labelRe = regexp.MustCompile(`^\[([A-Za-z0-9_.:@\-]+)\]\s*`)
 
@@ -359,7 +359,7 @@ func parseClauseLine(body, path string, ln int) (*Clause, error) {
 	}
 	for {
 		if m := labelRe.FindStringSubmatch(rest); m != nil {
-			if m[1] == "B1" || m[1] == "B2" || m[1] == "B3" {
+			if m[1] == "B1" || m[1] == "B2" || m[1] == "B3" || m[1] == "SEQ" {
 				cl.Mode = m[1]
 			} else {
 				cl.Label = m[1]
